@@ -106,6 +106,14 @@ pub fn run(rng: &mut Rng, out: &mut Fails) {
     if !sym.is_symmetric() || asym.is_symmetric() { fail(out, "Matrix::is_symmetric", "C15.pred", "2x2".into(), "wrong".into(), "per definition".into()); }
     let up = Matrix::new(vec![1., 2., 0., 5.], 2, 2);
     if !up.is_upper_triangular() || up.is_lower_triangular() || !up.t().is_lower_triangular() { fail(out, "Matrix::is_upper/lower_triangular", "C15.pred", "[[1,2],[0,5]]".into(), "wrong".into(), "per definition".into()); }
+    // is_square answers "the length is a perfect square" for small and for large lengths (beyond the 24-bit mantissa of an f32)
+    for len in [0usize, 1, 2, 3, 4, 8, 9, 15, 16, 17, 99, 100, 101, 1 << 20, (1 << 20) + 1, 16777216, 16777217, 16785408, 16785409] {
+        let v = vec![0.0f64; len];
+        let r = (len as f64).sqrt().round() as usize;
+        let want: Option<usize> = if r * r == len { Some(r) } else { None };
+        let got = compute::linalg::is_square(&v).ok();
+        if got != want { fail(out, "is_square", "C15.is_square", format!("slice of length {}", len), format!("{:?}", got), format!("{:?}", want)); }
+    }
     // rotations: cw == ccw^T, orthogonal, det 1  -- skipped here (angles), data-flow only
     // row/col major round trip
     for (r, c) in [(2usize, 3usize), (3, 2), (1, 4), (4, 1), (3, 3)] {
